@@ -7,7 +7,7 @@
    (Part B); [wf_triple] is what rdflib itself accepts when serialising, with
    absolute IRIs; [row_kf] names the four regions where rdflib's own checks are
    narrower than the grammar (findings C05a-d). *)
-From RV Require Import Grammar.Model Grammar.Proofs.
+From RV Require Import Grammar.Model Grammar.Proofs Grammar.Reader Grammar.ReaderProofs.
 Local Open Scope N_scope.
 
 (* "Conversely rdflib's N-Triples output is accepted by a strict implementation of
@@ -112,6 +112,38 @@ Theorem C05_valid_uri_is_iriref : forall s,
   valid_uri s = true -> has_ctrl s = false -> forallb iri_plain s = true.
 Proof. exact valid_uri_iri_ok. Qed.
 Print Assumptions C05_valid_uri_is_iriref.
+
+(* ---------------------------------------------------------------- the line reader (first half of the property)
+   The reader model of Grammar/Reader.v is tied to the source by the correspondence suite "ntread"; what is
+   proved about it here is (1) that it was written for exactly the regular expressions the tree under test
+   contains now, (2) that its escape table is the ECHAR production.  The completeness statement
+
+     C05_nt_reads_legal : forall nq d qs, strict_doc nq d = Some qs -> rd_kf' d = 0 ->
+                          exists qs', rd_doc nq d = Some qs' /\ qs_equiv qs' qs = true
+
+   is NOT proved (see notes/C05.md); it is tested on every generated legal document and on the W3C syntax
+   tests, with the Coq strict reader as the judge. *)
+Theorem C05_reader_regexes_pinned_partial :
+  nt_uriref_src = [60; 40; 91; 94; 58; 93; 43; 58; 91; 94; 92; 115; 34; 60; 62; 93; 42; 41; 62]
+  /\ nt_r_wspace_src = [91; 32; 92; 116; 93; 42]
+  /\ nt_r_wspaces_src = [91; 32; 92; 116; 93; 43]
+  /\ nt_validate = false.
+Proof.
+  split; [exact nt_uriref_src_pinned|split; [exact nt_r_wspace_src_pinned|split; [exact nt_r_wspaces_src_pinned|exact nt_validate_off]]].
+Qed.
+Print Assumptions C05_reader_regexes_pinned_partial.
+Theorem C05_reader_echar_table_partial : forall e, rd_echar e = echar e.
+Proof. exact rd_echar_eq. Qed.
+Print Assumptions C05_reader_echar_table_partial.
+
+(* the reader is NOT complete on the legal language: witness for finding C05e *)
+Theorem C05_nt_reads_legal_refuted : exists d qs,
+  strict_doc false d = Some qs /\ rd_doc false d = None.
+Proof.
+  exists [60;97;58;115;62;60;97;58;112;62;60;97;58;111;62;46]. eexists.
+  split; [vm_compute; reflexivity|vm_compute; reflexivity].
+Qed.
+Print Assumptions C05_nt_reads_legal_refuted.
 
 (* non-vacuity: a two-row N-Quads document with every kind of term, escapes in the
    literal, a blank-node-named graph and the default graph is in scope and read back *)
